@@ -23,7 +23,7 @@ class IHAM(object):
         try:
             numeric_hogid = int(self.hog.hog_id)
             hogid = "HOG:{:07d}".format(numeric_hogid)
-        except ValueError:
+        except (ValueError, TypeError):
             hogid = self.hog.hog_id
         self.HTML = self.html_template.safe_substitute({'name': hog.hog_id,
                                                         'hog_id': hogid,
